@@ -98,7 +98,9 @@ func c08StopTimes(tier string) Harness {
 				st.set(r, "stop_sequence", strconv.FormatInt(n, 10))
 			}
 		}
+		collideKey := ""
 		if c.Free("ids_and_sequences_collide_when_concatenated", 2) == 1 {
+			collideKey = "/colliding"
 			ren := map[string]string{"T1": "7", "T2": "71", "T3": "711"}
 			for _, f := range []string{"trips.txt", "stop_times.txt", "frequencies.txt"} {
 				t := m.t(f)
@@ -117,6 +119,22 @@ func c08StopTimes(tier string) Harness {
 				st.set(r, "stop_sequence", map[string][]string{"7": {"11", "12", "13", "110"}, "71": {"1", "2", "3", "10"}, "711": {"0", "1", "2", "3"}}[id][k%4])
 			}
 			c.Witness("colliding_id_and_sequence_texts")
+		}
+		spanKey := ""
+		if c.Free("trips_span_more_than_12_hours", 2) == 1 {
+			spanKey = "/long-span"
+			// the k-th row of each trip (in sequence order) arrives at 06:00 + 7 h * k: consecutive rows of the
+			// FILE may then lie more than half a day apart in either direction
+			st := m.t("stop_times.txt")
+			n := map[string]int{}
+			for r := range st.Rows {
+				id, _ := st.get(r, "trip_id")
+				k := n[id]
+				n[id]++
+				st.set(r, "arrival_time", fmt.Sprintf("%02d:00:00", 6+7*k))
+				st.set(r, "departure_time", fmt.Sprintf("%02d:10:00", 6+7*k))
+			}
+			c.Witness("trip_spanning_more_than_12_hours")
 		}
 		// one row may have neither an arrival nor a departure time (legal for non-timepoints; the
 		// parser has no time to give it and leaves the row out): wherever that row lands, the other
@@ -156,7 +174,7 @@ func c08StopTimes(tier string) Harness {
 		}
 		firstSeq, _ := m.t("stop_times.txt").get(0, "stop_sequence")
 		_ = firstSeq
-		c08Compare(c, m, "stop_times-row-order-irrelevant", fmt.Sprint(d)+seqRangeKey(m)+blankKey, !identity)
+		c08Compare(c, m, "stop_times-row-order-irrelevant", fmt.Sprint(d)+seqRangeKey(m)+blankKey+spanKey+collideKey, !identity)
 	}
 }
 
